@@ -96,7 +96,7 @@ func (c *container) OnAdd(kv internal.KV) {
 }
 
 func (c *container) OnDelete(kv internal.KV) {
-	c.removeKey(kv.Key)
+	c.removeKv(kv.Key, kv.Val)
 	c.notifyChange()
 }
 
@@ -106,6 +106,10 @@ func (c *container) addKv(key string, val string) ([]string, bool) {
 	defer c.lock.Unlock()
 
 	c.dirty.Set(true)
+	// key 换了值（新的生命期，旧值的删除事件没收到或还在路上）：先从旧值名下摘掉
+	if old, ok := c.mapping[key]; ok && old != val {
+		c.unlink(old, key)
+	}
 	keys := c.values[val]
 	previous := append([]string(nil), keys...)
 	early := len(keys) > 0
@@ -132,6 +136,22 @@ func (c *container) removeKey(key string) {
 	c.doRemoveKey(key)
 }
 
+// removeKv 删除 key 曾发布的值 val。
+// 重连后的快照先送来新增、后送来删除：key 若已在新的生命期里发布了别的值，
+// 只摘掉旧值名下的 key，不能把新值也删掉。
+func (c *container) removeKv(key, val string) {
+	c.lock.Lock()
+	defer c.lock.Unlock()
+
+	c.dirty.Set(true)
+	if current, ok := c.mapping[key]; len(val) > 0 && (!ok || current != val) {
+		c.unlink(val, key)
+		return
+	}
+
+	c.doRemoveKey(key)
+}
+
 func (c *container) doRemoveKey(key string) {
 	server, ok := c.mapping[key]
 	if !ok {
@@ -139,6 +159,11 @@ func (c *container) doRemoveKey(key string) {
 	}
 
 	delete(c.mapping, key)
+	c.unlink(server, key)
+}
+
+// unlink 从 server 名下摘掉 key，server 名下再无 key 时一并删除。
+func (c *container) unlink(server, key string) {
 	keys := c.values[server]
 	remain := keys[:0]
 
